@@ -136,7 +136,7 @@ H("streams_set_receive_window", ["C06"], "quick", "connection::streams::state::s
 H("streams_queue_max_stream_id", ["C06"], "quick", "connection::streams::state::queue_max_stream_id",
   [("max_remote_bi", "u64"), ("sent_bi", "u64"), ("conc_bi", "u64"), ("max_remote_uni", "u64"), ("sent_uni", "u64"), ("conc_uni", "u64")], 6,
   ["reached", "bidi queued", "uni queued"], ["StreamsState::queue_max_stream_id"], "sent <= max_remote, all u64")
-H("streams_zero_rtt_rejected_restart", ["C05"], "quick", "connection::streams::state::zero_rtt_rejected_restart",
+H("streams_zero_rtt_rejected_restart", ["C05", "C17"], "quick", "connection::streams::state::zero_rtt_rejected_restart",
   [("remembered_max_data", "u64"), ("early_sent", "u64"), ("early_unacked", "u64"), ("old_bi", "u64"), ("old_uni", "u64"), ("new_max_data", "u64"), ("new_bi", "u64"), ("new_uni", "u64")], 4,
   ["fresh limit lower than the remembered one", "fresh limit not lower"],
   ["StreamsState::zero_rtt_rejected", "StreamsState::set_params", "StreamsState::received_max_data"],
@@ -427,7 +427,7 @@ H("tp_preferred_address_read", ["C10", "C03"], "quick", "transport_parameters::p
 H("tp_roundtrip_ints", ["C10"], "thorough", "transport_parameters::roundtrip_ints", [("v", "[u16; 11]"), ("server", "bool")], 24,
   ["round-tripped"], ["TransportParameters::write", "TransportParameters::read", "TransportParameters::default"],
   "all 11 integer parameters present with arbitrary values of fixed varint width (64..16383; ack_delay_exponent 0..=20 except the default); default write order", heavy=True, timeout=1700)
-H("tp_resumption", ["C03", "C10"], "quick", "transport_parameters::resumption",
+H("tp_resumption", ["C03", "C10", "C17"], "quick", "transport_parameters::resumption",
   [("a", "[u64; 8]"), ("b", "[u64; 8]"), ("ga", "bool"), ("gb", "bool"), ("da", "bool"), ("db", "bool")], 10,
   ["accepted", "rejected"], ["TransportParameters::validate_resumption_from"], "every pair of parameter sets with values < 2^62")
 H("tp_read_one_01_len1", ["C03", "C10"], "quick", "transport_parameters::read_one_int",
